@@ -400,7 +400,7 @@ func oracle(c cfg, o *vrt.Outcome) {
 		if pend := x.pool.VerifPending(); pend > 0 {
 			o.Fail("C02/conservation", "pending-forever", fmt.Sprintf("%d requests still pending after everything stopped: neither started nor reported dropped nor discarded (started %d, dropped %d, requested %d+%d, limit %d)", pend, started, dropped, lo, x.racing, c.limit))
 		}
-		if c.limit > 0 {
+		if c.limit > 0 && c.stop == "limit" {
 			if dropped != 0 {
 				o.Fail("C02/limit-drop-reported", fmt.Sprintf("limit"), fmt.Sprintf("limit %d: %d requests reported dropped although every tick was issued with nothing pending or after the limit was reached (started %d)", c.limit, dropped, started))
 			}
@@ -577,6 +577,11 @@ func scenariosFor(tier string) []vrt.Scenario {
 		}
 		plain(1, true, cfg{kind: "trigger", workers: 2, ticks: q(2, 1), gate: "none", stop: "cancel-q"})
 		plain(1, true, cfg{kind: "trigger", workers: 2, ticks: q(3), gate: "none", stop: "limit", limit: 2})
+		// a limit that is set but never reached (the workers are held busy, the caller cancels): requests are superseded
+		// and dropped exactly as without a limit
+		for _, wk := range []int{1, 2} {
+			add(bw[wk], cfg{kind: "trigger", workers: wk, ticks: q(5, 5), gate: "all", stop: "cancel-q", limit: uint64(wk) + 2})
+		}
 		// requests left pending when the limit is reached (a tick two and more above the limit): discarded silently
 		for _, wk := range []int{1, 2} {
 			add(bw[wk], cfg{kind: "trigger", workers: wk, ticks: q(3), gate: "none", stop: "limit", limit: 1})
